@@ -468,17 +468,17 @@ def run(only=None):
     # ---- scale: far more records than any bounded search creates -----------------------------------------------
     if not only or "many_records" in only:
         s = rep.sub("many_records",
-                    "one linear history: 1300 distinct incoming addresses looked up with auto-creation (every third with an identifying patch, the "
-                    "others left unidentified), then every address looked up again: the same object as the first time, 1300 records, 1300 distinct "
+                    "one linear history: 2100 distinct incoming addresses looked up with auto-creation (every seventh with an identifying patch, 1800 "
+                    "left unidentified), then every address looked up again: the same object as the first time, 2100 records, 2100 distinct "
                     "ids, match_uuid finds each, a patch on the last record changes no other record")
         SEAMS.uid = 0
         st = RepeaterStorage()
         first = {}
-        n_addr = 1300
+        n_addr = 2100
         addrs = [(f"10.{i // 250}.{i % 250}.7", 50000 + (i % 3)) for i in range(n_addr)]
         try:
             for i, a_ in enumerate(addrs):
-                r_ = st.match_incoming(a_, auto_create=True, patch=({"dmr_id": 1000 + i, "callsign": f"R{i}"} if i % 3 == 0 else {}))
+                r_ = st.match_incoming(a_, auto_create=True, patch=({"dmr_id": 1000 + i, "callsign": f"R{i}"} if i % 7 == 0 else {}))
                 first[a_] = r_
                 if r_ is None or r_.address_in != a_:
                     s.violation("many_records:created_record_has_wrong_address", {"index": i, "address": list(a_)})
